@@ -28,6 +28,9 @@ pub struct Tamper {
     pub extra_ciphertext_at: Option<usize>,
     /// a confirmation tag computed with the right key over a wrong transcript hash
     pub wrong_confirmation_tag: bool,
+    /// send only the first k (>= 1) nodes of the path; everything else (parent hashes over the old upper nodes, commit
+    /// secret = the path secret after the last node sent, tags) is made consistent with that
+    pub truncate_to: Option<usize>,
 }
 
 pub struct ForgeInput<'a> {
@@ -122,8 +125,13 @@ pub fn forge(inp: &ForgeInput, tamper: &Tamper) -> Option<Forged> {
     };
 
     // path secrets, bottom-up: path_secret[0] fresh, path_secret[n] = DeriveSecret(path_secret[n-1], "path")
+    let sent = match tamper.truncate_to {
+        Some(k) if k >= 1 && k < fdp.len() => k,
+        Some(_) => return None,
+        None => fdp.len(),
+    };
     let mut path_secrets = vec![s.expand_with_label(inp.seed, b"verif forged path", &[], s.nh())];
-    for _ in 1..fdp.len() {
+    for _ in 1..sent {
         let next = s.derive_secret(path_secrets.last().unwrap(), b"path");
         path_secrets.push(next);
     }
@@ -140,7 +148,7 @@ pub fn forge(inp: &ForgeInput, tamper: &Tamper) -> Option<Forged> {
     }
 
     // install the path, compute the parent hash chain top-down, then the leaf
-    for (i, (p, _)) in fdp.iter().enumerate() {
+    for (i, (p, _)) in fdp.iter().enumerate().take(sent) {
         tree.nodes[*p as usize] = RefNode::Parent(RefParent { encryption_key: pubs[i].clone(), parent_hash: vec![], unmerged: vec![], raw: vec![] });
     }
     let mut hash: Vec<u8> = vec![];
@@ -179,7 +187,7 @@ pub fn forge(inp: &ForgeInput, tamper: &Tamper) -> Option<Forged> {
     put_opaque(&mut info, &provisional);
     let mut nodes_enc = vec![];
     let mut resolution = vec![];
-    for (i, (_, c)) in fdp.iter().enumerate() {
+    for (i, (_, c)) in fdp.iter().enumerate().take(sent) {
         let reso = tree.resolution(*c);
         resolution.push(reso.clone());
         let mut cts = vec![];
@@ -409,6 +417,35 @@ pub fn wrong_confirmation_tag(suite: u16, genuine: &[u8], membership_key: &[u8],
         return None;
     }
     let mtag = rk::membership_tag(&s, membership_key, pm.version, 1, pm.framed_content, group_context, &auth);
+    put_opaque(&mut out, &mtag);
+    Some(out)
+}
+
+
+/// A member's public Remove proposal re-aimed at another leaf: content changed, signature and membership tag recomputed with
+/// the sender's own keys (what a client that does not check its arguments would send).
+pub fn retarget_remove_proposal(suite: u16, csp: &VSuite, genuine: &[u8], new_leaf: u32, signer: &SignatureSecretKey, membership_key: &[u8], group_context: &[u8]) -> Option<Vec<u8>> {
+    let s = rk::Suite::new(suite);
+    let pm = wire::parse_public_message(genuine)?;
+    pm.membership_tag?;
+    let sp = pm.spans.iter().find(|x| x.name.ends_with("remove.leaf"))?;
+    let mut framed = pm.framed_content.to_vec();
+    let off = sp.start - pm.framed.start;
+    framed[off..off + 4].copy_from_slice(&new_leaf.to_be_bytes());
+    let mut ftbs = vec![];
+    ftbs.extend_from_slice(&pm.version.to_be_bytes());
+    ftbs.extend_from_slice(&1u16.to_be_bytes());
+    ftbs.extend_from_slice(&framed);
+    ftbs.extend_from_slice(group_context);
+    let sig = sign(csp, signer, "FramedContentTBS", &ftbs)?;
+    let mut auth = vec![];
+    put_opaque(&mut auth, &sig);
+    let mut out = vec![];
+    out.extend_from_slice(&pm.version.to_be_bytes());
+    out.extend_from_slice(&1u16.to_be_bytes());
+    out.extend_from_slice(&framed);
+    out.extend_from_slice(&auth);
+    let mtag = rk::membership_tag(&s, membership_key, pm.version, 1, &framed, group_context, &auth);
     put_opaque(&mut out, &mtag);
     Some(out)
 }
